@@ -186,14 +186,11 @@ def short(spec):
 
 def key_class(spec):
     """stable short key of the input class of a failing circuit."""
-    kinds = set()
-    for s in spec:
-        if s[0] in ("M", "CB"):
-            kinds.add(s[0])
-        elif (s[0] == "P" and s[4]) or (s[0] in ("U", "N") and s[3]):
-            kinds.add("ctrl")
-        kinds.add(f"a{min(len(spec_support(s)), 3)}" if s[0] not in ("M", "CB") else s[0])
-    return "+".join(sorted(kinds))
+    if any(s[0] in ("M", "CB") for s in spec):
+        return "special"
+    if any((s[0] == "P" and s[4]) or (s[0] in ("U", "N") and s[3]) for s in spec):
+        return "controlled"
+    return "plain"
 
 
 # ---------------------------------------------------------------------------
@@ -317,6 +314,20 @@ def is_deterministic(spec):
     return True
 
 
+def valid_measurements(spec):
+    """two measurements of the same qubit with no gate on it in between crash the original
+    circuit's own execution (register of a collapsed qubit): leave those out."""
+    pending = set()
+    for s in spec:
+        if s[0] == "M":
+            if pending & set(s[1]):
+                return False
+            pending |= set(s[1])
+        elif s[0] != "CB":
+            pending -= set(spec_support(s))
+    return True
+
+
 def random_spec(rng, n, depth, special=True, dense=False, unitary_only=False, floats=False):
     spec = []
     measured = set()
@@ -340,6 +351,39 @@ def random_spec(rng, n, depth, special=True, dense=False, unitary_only=False, fl
     return spec
 
 
+def collapse_spec(rng, n, depth):
+    """monomial gates only, measurements in the middle, gates on measured qubits afterwards:
+    on a basis state every measurement outcome is certain, so the run is deterministic."""
+    spec = []
+    measured = False
+    for i in range(depth):
+        r = rng.random()
+        if r < 0.18 and i > 0:
+            spec.append(("M", tuple(rng.sample(range(n), rng.randint(1, min(2, n))))))
+            measured = True
+            continue
+        k = rng.randint(1, min(n, 3))
+        qs = rng.sample(range(n), k)
+        if rng.random() < 0.5:
+            spec.append(("N", rng.choice({1: INT1, 2: INT2, 3: INT3}[k]), tuple(qs), ()))
+        else:
+            ncs = rng.choice([0, 0, 1]) if k > 1 else 0
+            spec.append(spec_unitary(rng, qs[: k - ncs], qs[k - ncs:], unitary=True))
+    if not measured:
+        spec.insert(len(spec) // 2 + 1, ("M", (rng.randrange(n),)))
+    # no register may be measured twice by two M gates on the same qubit without a gate in between: fine for qibo
+    return spec
+
+
+def manual_run(circ, psi):
+    """apply the queue gate by gate (what execute_circuit does for one shot)."""
+    nb = qgates.np_backend()
+    state = nb.cast(psi.copy())
+    for g in circ.queue:
+        state = g.apply(nb, state, circ.nqubits)
+    return np.asarray(state)
+
+
 def layered_spec(rng, n, layers):
     """adversarial shape: non-commuting partners separated by gates on other qubits."""
     spec = []
@@ -361,7 +405,7 @@ def layered_spec(rng, n, layers):
 
 
 class FuseCase:
-    __slots__ = ("n", "spec", "mq", "c", "fused", "groups", "objs", "psi", "density", "cbs", "second")
+    __slots__ = ("n", "spec", "mq", "c", "fused", "groups", "objs", "psi", "density", "cbs", "mode")
 
 
 def fusion_cases(ctx):
@@ -371,7 +415,9 @@ def fusion_cases(ctx):
     for n, length, special in ((1, 3, True), (2, 3, True), (3, 2, True), (3, 3, False)):
         for spec in exhaustive_specs(ctx, n, length, special):
             if is_deterministic(spec):
-                cases.append((n, spec, list(range(1, n + 2)), True))
+                cases.append((n, spec, list(range(1, n + 2)), "exec"))
+            elif valid_measurements(spec):
+                cases.append((n, spec, list(range(1, n + 1)), "struct"))
     # a seeded sample of the longer exhaustive families (all of them in the thorough tier)
     fams = [(2, 4, True), (3, 4, False), (3, 3, True), (4, 3, False)]
     if ctx.thorough:
@@ -382,18 +428,23 @@ def fusion_cases(ctx):
         budget = 6000 if ctx.thorough else 700
         p = min(1.0, budget / total)
         for spec in exhaustive_specs(ctx, n, length, special):
-            if rng.random() < p and is_deterministic(spec):
-                cases.append((n, spec, list(range(1, n + 1)), True))
+            if rng.random() < p and valid_measurements(spec):
+                cases.append((n, spec, list(range(1, n + 1)), "exec" if is_deterministic(spec) else "struct"))
     # random deep circuits
     for _ in range(400 if ctx.thorough else 90):
         n = rng.randint(2, 6)
         depth = rng.randint(4, 30)
         spec = random_spec(rng, n, depth, special=rng.random() < 0.5)
-        cases.append((n, spec, list(range(1, n + 1)), True))
+        cases.append((n, spec, list(range(1, n + 1)), "exec"))
     for _ in range(150 if ctx.thorough else 40):
         n = rng.randint(3, 6)
         spec = layered_spec(rng, n, rng.randint(2, 6))
-        cases.append((n, spec, list(range(1, n + 1)), True))
+        cases.append((n, spec, list(range(1, n + 1)), "exec"))
+    for _ in range(200 if ctx.thorough else 60):
+        n = rng.randint(1, 4)
+        spec = collapse_spec(rng, n, rng.randint(3, 12))
+        if valid_measurements(spec):
+            cases.append((n, spec, list(range(1, n + 1)), "manual"))
     return cases
 
 
@@ -404,15 +455,19 @@ def fusion_suite(ctx):
     rng = ctx.rng
     items = []
     lines = []
-    struct_bad = teq_bad = sizes_bad = sem_bad = meas_bad = mut_bad = mat_bad = 0
-    for n, spec, mqs, _ in fusion_cases(ctx):
-        c, cbs = build(n, spec)
+    struct_bad = teq_bad = sizes_bad = sem_bad = meas_bad = mut_bad = mat_bad = model_bad = 0
+    for n, spec, mqs, mode in fusion_cases(ctx):
+        try:
+            c, cbs = build(n, spec)
+        except Exception:  # noqa: BLE001  not a valid circuit
+            ctx.stat('spec_rejected_by_qibo')
+            continue
         qt = queue_tokens(c)
         before = [(id(g), gate_sig(g)) for g in c.queue]
         meas_before = list(c.measurements)
         for mq in mqs:
             it = FuseCase()
-            it.n, it.spec, it.mq, it.c, it.cbs = n, spec, mq, c, cbs
+            it.n, it.spec, it.mq, it.c, it.cbs, it.mode = n, spec, mq, c, cbs, mode
             try:
                 it.fused = c.fuse(max_qubits=mq)
             except Exception as e:  # noqa: BLE001
@@ -446,8 +501,9 @@ def fusion_suite(ctx):
         hdr = code(n, spec) + f"f = c.fuse(max_qubits={mq})\n"
         if flags != "sizes=1 perm=1 teq=1":
             # the MODEL's own output fails the checks the theorems speak about
-            struct_bad += 1
-            ctx.ob("C07_model_selfcheck", False, "correspondence", f"model output {mout} on {short(spec)} mq={mq}")
+            model_bad += 1
+            if model_bad <= 3:
+                ctx.log(f"model output fails its own checks: {mout} on {short(spec)} mq={mq}")
         if it.groups is None:
             sem_bad += 1
             ctx.fail("fuse:foreign-gate", f"fused queue of {short(spec)} (max_qubits={mq}) contains a gate that is not a gate of the original circuit",
@@ -491,6 +547,32 @@ def fusion_suite(ctx):
                      "assert [id(g) for g in c.queue if isinstance(g, gates.CallbackGate)] == [id(g) for g in f.queue if isinstance(g, gates.CallbackGate)]\n",
                      broken=["C07_search_fuse_measurements"])
         # -- semantics, exact
+        if it.mode == "struct":
+            ctx.stat("fuse_structure_only")
+            continue
+        if it.mode == "manual":
+            # collapsing measurements in the middle: basis state + monomial gates => every
+            # outcome is certain; apply the queues gate by gate
+            psi = np.zeros(2**n, dtype=complex)
+            psi[rng.randrange(2**n)] = 1
+            run_py = "def run(circ, psi):\n    s = nb.cast(psi.copy())\n    for g in circ.queue:\n        s = g.apply(nb, s, circ.nqubits)\n    return np.asarray(s)\n"
+            try:
+                ref = manual_run(c, psi)
+            except Exception:  # noqa: BLE001
+                ctx.stat("original_not_executable")
+                continue
+            try:
+                out = manual_run(fused, psi)
+                ok = np.allclose(out, ref, atol=1e-12)
+            except Exception as e:  # noqa: BLE001
+                out, ok = repr(e), False
+            ctx.stat("fuse_collapse_runs")
+            if not ok:
+                sem_bad += 1
+                ctx.fail("fuse:state:collapse", f"fused circuit (max_qubits={mq}) of {short(spec)} (collapsing measurements in the middle, basis-state input) ends in a different state",
+                         hdr + run_py + f"psi = np.array({psi.tolist()})\nref = run(c, psi)\nout = run(f, psi)\nassert np.allclose(out, ref, atol=1e-12), (out, ref)\n",
+                         expected=str(ref.tolist()), observed=str(out if isinstance(out, str) else out.tolist()), broken=["C07_search_fuse_semantics"])
+            continue
         psi = int_state(rng, n)
         it.psi = psi
         try:
@@ -571,6 +653,7 @@ def fusion_suite(ctx):
                 ctx.fail(f"fuse:state-vs-model:{key_class(it.spec)}", f"fused circuit (max_qubits={it.mq}) of {short(it.spec)}: final state differs from the Lean simulator ({kind})",
                          hdr + f"psi = np.array({it.psi.tolist()})\nout = nb.execute_circuit(f, initial_state=psi.copy()).state()\nexpected = np.array({model.tolist()})\nassert np.array_equal(out, expected), (out, expected)\n",
                          expected=str(model.tolist()), observed=str(real.tolist()), broken=["C07_corr_fuse_sim"])
+    ctx.ob("C07_model_selfcheck", model_bad == 0, "correspondence", f"{model_bad} model outputs violate sizes/perm/~t (contradicting T07_fuse_trace / T07_fuse_perm / T07_fuse_groups_ok: driver or model file changed?)" if model_bad else "")
     ctx.ob("C07_corr_fuse_structure", struct_bad == 0, "correspondence", f"{struct_bad} circuits where the model's fused queue differs from Circuit.fuse" if struct_bad else "")
     ctx.ob("C07_corr_fuse_traceeq", teq_bad == 0, "correspondence", f"{teq_bad} real fused queues not ~t the input" if teq_bad else "")
     ctx.ob("C07_corr_fuse_sim", lean_bad == 0, "correspondence", f"{lean_bad} disagreements with the Lean simulator" if lean_bad else "")
@@ -626,6 +709,7 @@ def fusion_variants(ctx):
     nb = qgates.np_backend()
     rng = ctx.rng
     bad = 0
+    re_lines, re_meta = [], []
     for _ in range(120 if ctx.thorough else 40):
         n = rng.randint(2, 5)
         spec = random_spec(rng, n, rng.randint(3, 14), special=rng.random() < 0.4)
@@ -656,6 +740,54 @@ def fusion_variants(ctx):
         if [id(g) for g in ff.queue if isinstance(g, gates.M)] != [id(g) for g in c.queue if isinstance(g, gates.M)]:
             bad += 1
             ctx.fail("fuse:refuse-measurements", f"c.fuse({mq}).fuse({mq2}) of {short(spec)} loses measurements", hdr, broken=["C07_search_fuse_variants"])
+        # model correspondence on a queue that already contains FusedGates (barriers)
+        gq, _ = real_groups(f1, ff)
+        flat = [i for grp in (gq or []) for i in grp]
+        re_lines.append(f"FUSE {n} {mq2} {queue_tokens(f1)}")
+        re_lines.append(f"TEQ {n} {queue_tokens(f1)} {len(flat)} {' '.join(map(str, flat))}")
+        re_meta.append((n, spec, mq, mq2, gq))
+        # Circuit.unitary of the fused circuit (ordinary gates only)
+        if n <= 4 and all(s0[0] not in ("M", "CB") for s0 in spec):
+            u0, u1 = np.asarray(c.unitary(nb)), np.asarray(f1.unitary(nb))
+            if np.abs(u0).max(initial=0) <= BIG and not np.array_equal(u0, u1):
+                bad += 1
+                ctx.fail("fuse:unitary", f"c.fuse({mq}).unitary() differs from c.unitary() for {short(spec)}",
+                         hdr + f"assert np.array_equal(c.unitary(nb), c.fuse(max_qubits={mq}).unitary(nb))\n", broken=["C07_search_fuse_variants"])
+    re_bad = 0
+    for (n, spec, mq, mq2, gq), (mo, to) in zip(re_meta, zip(*[iter(run_driver(re_lines, driver=DRV))] * 2) if re_lines else []):
+        grp_s, flags = mo.split(" ; ")
+        model = [[int(x) for x in g.split(",")] for g in grp_s.split("|")] if grp_s.strip() else []
+        ctx.case(("refuse", n, mq, mq2, short(spec)))
+        if model != gq or to != "1" or flags != "sizes=1 perm=1 teq=1":
+            re_bad += 1
+            if re_bad <= 3:
+                ctx.log(f"re-fusion differs: n={n} {short(spec)} fuse({mq}).fuse({mq2}) model={model} real={gq} teq={to}")
+    ctx.ob("C07_corr_refuse_structure", re_bad == 0, "correspondence", f"{re_bad} re-fused queues differ from the model / are not ~t" if re_bad else "")
+    # a collapsing measurement: the fused circuit must still be run once per shot
+    for _ in range(6 if ctx.thorough else 3):
+        n = rng.randint(1, 3)
+        q = rng.randrange(n)
+        pre = [("N", "H", (q,), ())] + random_spec(rng, n, rng.randint(0, 3), special=False, unitary_only=True)
+
+        def mk():
+            from qibo import Circuit
+            cc, _ = build(n, pre)
+            r = cc.add(gates.M(q, collapse=True))
+            cc.add(gates.M(*range(n)))
+            return cc, r
+        c0, r0 = mk()
+        nb.execute_circuit(c0, nshots=20)
+        c1, r1 = mk()
+        nb.execute_circuit(c1.fuse(max_qubits=rng.randint(1, n)), nshots=20)
+        ctx.case(("collapse-shots", n, short(pre)))
+        k0, k1 = len(r0.samples()), len(r1.samples())
+        if k0 != k1:
+            bad += 1
+            ctx.fail("fuse:collapse-shots", f"fused circuit with a collapsing measurement records {k1} shots of it instead of {k0} (all shots come from one trajectory)",
+                     "from qibo import Circuit, gates\nfrom qibo.backends import NumpyBackend\nnb = NumpyBackend()\n"
+                     "c = Circuit(1); c.add(gates.H(0)); r = c.add(gates.M(0, collapse=True)); c.add(gates.M(0))\n"
+                     "nb.execute_circuit(c.fuse(), nshots=20)\nassert len(r.samples()) == 20, len(r.samples())\n",
+                     expected=str(k0), observed=str(k1), broken=["C07_search_fuse_variants"])
     # density matrices (exact) — non-Hermitian integer rho so that a missing conjugate shows
     for _ in range(60 if ctx.thorough else 20):
         n = rng.randint(2, 3)
@@ -809,80 +941,86 @@ def cone_suite(ctx):
     outs = run_driver(lines, driver=DRV)
     red_lines, red_meta = [], []
     for (n, spec, mode, c, sigs, S, Sarg, lc, qmap, vs, full, psi), o in zip(meta, outs):
-        hdr = code(n, spec) + f"lc, qmap = c.light_cone(*{Sarg})\n"
-        body, flags = o.split(" ; ")
-        cs, rs, Qs = [p.strip() for p in body.split("|")]
-        cone_ids = [int(x) for x in cs.split(",")] if cs else []
-        Q = [int(x) for x in Qs.split(",")] if Qs else []
-        if flags != "teq=1 restoff=1 conein=1":
-            split_bad += 1
-        ctx.stat("cone_gates_dropped", len(c.queue) - len(cone_ids))
-        # -- structure: same gates in the same order on re-indexed qubits, same qubit map
-        want_map = {q: i for i, q in enumerate(Q)}
-        inv = {v: k for k, v in qmap.items()} if isinstance(qmap, dict) else {}
         try:
-            real_sigs = []
-            for g in lc.queue:
-                sg = gate_sig(g)
-                real_sigs.append((sg[0], tuple(inv[q] for q in sg[1]), tuple(sorted(inv[q] for q in sg[2]))) + tuple(sg[3:]))
-            model_sigs = [(s[0], s[1], tuple(sorted(s[2]))) + tuple(s[3:]) for s in (sigs[i] for i in cone_ids)]
-            same = qmap == want_map and real_sigs == model_sigs and lc.nqubits == len(Q)
-        except KeyError:
-            same = False
-        if not same:
-            struct_bad += 1
-            if struct_bad <= 3:
-                ctx.log(f"light cone differs: n={n} S={Sarg} {short(spec)} model cone={cone_ids} Q={Q} real map={qmap} real={[(type(g).__name__, g.qubits) for g in lc.queue]}")
-        # -- the property itself: reduced states agree
-        Qr = sorted(qmap)
-        if not set(S) <= set(Qr):
-            sem_bad += 1
-            ctx.fail("cone:qubit-map", f"light_cone(*{Sarg}) of {short(spec)}: observed qubits missing from the qubit map {qmap}", hdr + f"assert set({list(S)}) <= set(qmap)\n", broken=["C07_search_cone_reduced"])
-            continue
-        keep_full = sorted(S)
-        keep_cone = [qmap[q] for q in keep_full]
-        try:
-            if mode == "int":
-                psi_c = product_state([vs[q] for q in Qr])
-                factor = 1
-                for q in range(n):
-                    if q not in Qr:
-                        factor *= int(round(sum(abs(x) ** 2 for x in vs[q])))
-                cone_state = np.asarray(nb.execute_circuit(lc, initial_state=psi_c.copy()).state())
-            else:
-                factor = 1
-                cone_state = np.asarray(nb.execute_circuit(lc).state())
-        except Exception as e:  # noqa: BLE001
-            sem_bad += 1
-            ctx.fail(f"cone:exec-raises:{type(e).__name__}", f"executing light_cone(*{Sarg}) of {short(spec)} raises {e!r}", hdr + "nb.execute_circuit(lc)\n", broken=["C07_search_cone_reduced"])
-            continue
-        r_full = reduced(full, n, keep_full)
-        r_cone = reduced(cone_state, lc.nqubits, keep_cone) * factor
-        ok = np.array_equal(r_full, r_cone) if mode == "int" else np.allclose(r_full, r_cone, atol=1e-10)
-        if not ok:
-            sem_bad += 1
-            init = f"vs = {vs}\n" + PROD_PY if mode == "int" else "psi = None; psic = None; factor = 1\n"
-            ctx.fail(f"cone:reduced:{key_class(spec)}", f"light_cone(*{Sarg}) of {short(spec)}: reduced state on {keep_full} differs from that of the full circuit",
-                     hdr + RED_PY + init + f"S = {keep_full}\n" + "full = nb.execute_circuit(c, initial_state=psi).state()\ncone = nb.execute_circuit(lc, initial_state=psic).state()\n"
-                     "a = reduced(full, c.nqubits, S)\nb = reduced(cone, lc.nqubits, [qmap[q] for q in S]) * factor\nassert np.allclose(a, b, atol=1e-10), (a, b)\n",
-                     expected=str(np.round(r_full, 10).tolist()), observed=str(np.round(r_cone, 10).tolist()), broken=["C07_search_cone_reduced"])
-        # -- measurements of the cone keep their registers
-        ms = [g for g in c.queue if isinstance(g, gates.M)]
-        if ms:
-            want = {m.register_name: tuple(qmap[q] for q in m.target_qubits) for m in ms if set(m.qubits) <= set(qmap) and any(id(m) == id(c.queue[i]) for i in cone_ids)}
-            got = {m.register_name: tuple(m.target_qubits) for m in lc.queue if isinstance(m, gates.M)}
-            if want != got:
+            hdr = code(n, spec) + f"lc, qmap = c.light_cone(*{Sarg})\n"
+            body, flags = o.split(" ; ")
+            cs, rs, Qs = [p.strip() for p in body.split("|")]
+            cone_ids = [int(x) for x in cs.split(",")] if cs else []
+            Q = [int(x) for x in Qs.split(",")] if Qs else []
+            if flags != "teq=1 restoff=1 conein=1":
+                split_bad += 1
+            ctx.stat("cone_gates_dropped", len(c.queue) - len(cone_ids))
+            # -- structure: same gates in the same order on re-indexed qubits, same qubit map
+            want_map = {q: i for i, q in enumerate(Q)}
+            inv = {v: k for k, v in qmap.items()} if isinstance(qmap, dict) else {}
+            try:
+                real_sigs = []
+                for g in lc.queue:
+                    sg = gate_sig(g)
+                    real_sigs.append((sg[0], tuple(inv[q] for q in sg[1]), tuple(sorted(inv[q] for q in sg[2]))) + tuple(sg[3:]))
+                model_sigs = [(s[0], s[1], tuple(sorted(s[2]))) + tuple(s[3:]) for s in (sigs[i] for i in cone_ids)]
+                same = qmap == want_map and real_sigs == model_sigs and lc.nqubits == len(Q)
+            except KeyError:
+                same = False
+            if not same:
+                struct_bad += 1
+                if struct_bad <= 3:
+                    ctx.log(f"light cone differs: n={n} S={Sarg} {short(spec)} model cone={cone_ids} Q={Q} real map={qmap} real={[(type(g).__name__, g.qubits) for g in lc.queue]}")
+            # -- the property itself: reduced states agree
+            Qr = sorted(qmap)
+            if not set(S) <= set(Qr):
                 sem_bad += 1
-                ctx.fail("cone:measurements", f"light_cone(*{Sarg}) of {short(spec)}: measurement registers {got}, expected {want}", hdr, expected=str(want), observed=str(got), broken=["C07_search_cone_reduced"])
-        # -- Lean simulator + model partial trace on the FULL circuit vs the real cone
-        if mode == "int" and n <= 4 and len(spec) <= 12 and np.abs(r_cone).max(initial=0) < BIG:
-            ng, gl = lean_gate_tokens(c)
-            T = [q for q in range(n) if q not in S]
-            red_lines.append(f"RED {n} {ng} {gl} {len(T)} {' '.join(map(str, T))} {gi_tokens(psi)}")
-            red_meta.append((n, spec, Sarg, r_cone.reshape(-1)))
-        if nsamples < 3 and len(spec) >= 4 and 0 < len(cone_ids) < len(spec):
-            nsamples += 1
-            ctx.sample({"kind": "light_cone", "n": n, "qubits": Sarg, "circuit": short(spec), "cone": cone_ids, "qubit_map": {str(k): v for k, v in qmap.items()}})
+                ctx.fail("cone:qubit-map", f"light_cone(*{Sarg}) of {short(spec)}: observed qubits missing from the qubit map {qmap}", hdr + f"assert set({list(S)}) <= set(qmap)\n", broken=["C07_search_cone_reduced"])
+                continue
+            keep_full = sorted(S)
+            keep_cone = [qmap[q] for q in keep_full]
+            try:
+                if mode == "int":
+                    psi_c = product_state([vs[q] for q in Qr])
+                    factor = 1
+                    for q in range(n):
+                        if q not in Qr:
+                            factor *= int(round(sum(abs(x) ** 2 for x in vs[q])))
+                    cone_state = np.asarray(nb.execute_circuit(lc, initial_state=psi_c.copy()).state())
+                else:
+                    factor = 1
+                    cone_state = np.asarray(nb.execute_circuit(lc).state())
+            except Exception as e:  # noqa: BLE001
+                sem_bad += 1
+                ctx.fail(f"cone:exec-raises:{type(e).__name__}", f"executing light_cone(*{Sarg}) of {short(spec)} raises {e!r}", hdr + "nb.execute_circuit(lc)\n", broken=["C07_search_cone_reduced"])
+                continue
+            r_full = reduced(full, n, keep_full)
+            r_cone = reduced(cone_state, lc.nqubits, keep_cone) * factor
+            ok = np.array_equal(r_full, r_cone) if mode == "int" else np.allclose(r_full, r_cone, atol=1e-10)
+            if not ok:
+                sem_bad += 1
+                init = f"vs = {vs}\n" + PROD_PY if mode == "int" else "psi = None; psic = None; factor = 1\n"
+                ctx.fail(f"cone:reduced:{key_class(spec)}", f"light_cone(*{Sarg}) of {short(spec)}: reduced state on {keep_full} differs from that of the full circuit",
+                         hdr + RED_PY + init + f"S = {keep_full}\n" + "full = nb.execute_circuit(c, initial_state=psi).state()\ncone = nb.execute_circuit(lc, initial_state=psic).state()\n"
+                         "a = reduced(full, c.nqubits, S)\nb = reduced(cone, lc.nqubits, [qmap[q] for q in S]) * factor\nassert np.allclose(a, b, atol=1e-10), (a, b)\n",
+                         expected=str(np.round(r_full, 10).tolist()), observed=str(np.round(r_cone, 10).tolist()), broken=["C07_search_cone_reduced"])
+            # -- measurements of the cone keep their registers
+            ms = [g for g in c.queue if isinstance(g, gates.M)]
+            if ms:
+                want = {m.register_name: tuple(qmap[q] for q in m.target_qubits) for m in ms if set(m.qubits) <= set(qmap) and any(id(m) == id(c.queue[i]) for i in cone_ids)}
+                got = {m.register_name: tuple(m.target_qubits) for m in lc.queue if isinstance(m, gates.M)}
+                if want != got:
+                    sem_bad += 1
+                    ctx.fail("cone:measurements", f"light_cone(*{Sarg}) of {short(spec)}: measurement registers {got}, expected {want}", hdr, expected=str(want), observed=str(got), broken=["C07_search_cone_reduced"])
+            # -- Lean simulator + model partial trace on the FULL circuit vs the real cone
+            if mode == "int" and n <= 4 and len(spec) <= 12 and np.abs(r_cone).max(initial=0) < BIG:
+                ng, gl = lean_gate_tokens(c)
+                T = [q for q in range(n) if q not in S]
+                red_lines.append(f"RED {n} {ng} {gl} {len(T)} {' '.join(map(str, T))} {gi_tokens(psi)}")
+                red_meta.append((n, spec, Sarg, r_cone.reshape(-1)))
+            if nsamples < 3 and len(spec) >= 4 and 0 < len(cone_ids) < len(spec):
+                nsamples += 1
+                ctx.sample({"kind": "light_cone", "n": n, "qubits": Sarg, "circuit": short(spec), "cone": cone_ids, "qubit_map": {str(k): v for k, v in qmap.items()}})
+        except Exception as e:  # noqa: BLE001  the returned cone / map is not what the API promises
+            sem_bad += 1
+            ctx.fail(f"cone:malformed:{type(e).__name__}", f"light_cone(*{Sarg}) of {short(spec)} returns an unusable circuit / qubit map ({e!r}): map={qmap!r}",
+                     code(n, spec) + f"lc, qmap = c.light_cone(*{Sarg})\nassert all(isinstance(v, int) for v in qmap.values()) and sorted(qmap.values()) == list(range(lc.nqubits))\nnb.execute_circuit(lc)\n", broken=["C07_search_cone_reduced"])
+
     routs = run_driver(red_lines, driver=DRV) if red_lines else []
     for (n, spec, Sarg, real), o in zip(red_meta, routs):
         model = parse_gi(o)
@@ -930,9 +1068,14 @@ def run(ctx):
     MODULES, THEOREMS = registry(PROP)
     ctx.theorems = THEOREMS
     build_and_audit(ctx, PROP, MODULES, THEOREMS)
-    fusion_suite(ctx)
-    fusion_variants(ctx)
-    cone_suite(ctx)
+    import traceback
+
+    for suite in (fusion_suite, fusion_variants, cone_suite):
+        try:
+            suite(ctx)
+        except Exception as e:  # noqa: BLE001  the real code behaved in a way the harness cannot digest
+            ctx.log(traceback.format_exc()[-1500:])
+            ctx.ob(f"C07_{suite.__name__}_completed", False, "search", f"{type(e).__name__}: {e}"[:300])
     ctx.notes.append(
         "fusion: every sequence of <=3 gates over all qubit subsets (size<=3, random Gaussian-integer matrices, shuffled qubit order, controlled_by) plus "
         "measurement/callback symbols on n<=3 exhaustively, seeded samples of the length 4-5 families, random n<=6 depth<=30 and layered adversarial circuits, "
